@@ -387,7 +387,7 @@ func runSelftest(repo, verif, prop string, verbose bool) int {
 				failed = append(failed, fr.Name+"/translate#0")
 			}
 			for _, o := range fr.Obligs {
-				if !oblOK(o) && !isKnown[o.Name] {
+				if !oblOK(o) && !isKnown[o.Name] && o.Exempt == "" {
 					failed = append(failed, o.Name)
 				}
 			}
